@@ -96,6 +96,9 @@ func (eng *Engine) verifyFunc(fn *ssa.Function, props []string) (fc *FnCtx, err 
 		if spec != nil {
 			env := fr.specEnv(st, st)
 			for _, cl := range spec.Requires {
+				if !clauseActive(cl) { // ext_propfilter.go: a precondition of another property is neither assumed here nor proved at the call sites in this run
+					continue
+				}
 				t, e := env.evalBool(cl.E)
 				if e != nil {
 					eng.stale(spec, cl, e)
@@ -111,13 +114,14 @@ func (eng *Engine) verifyFunc(fn *ssa.Function, props []string) (fc *FnCtx, err 
 				}
 				fr.panicsWhenOld = append(fr.panicsWhenOld, fc.define("pw", "Bool", t))
 			}
+			fr.evalNoPanicWhen(spec, env) // ext_nopanic.go
 		}
 		if os.Getenv("GOVC_NOFRAME") == "" {
 			fr.computeFrame(st)
 		}
 		// trusted axioms (facts about dependencies' globals, e.g. io.EOF != nil) hold in the entry state
 		for _, ax := range eng.contracts.Axioms {
-			if !axiomRelevant(ax, fn) || !axiomInScope(ax, props) { // axiomInScope: ext_lemma_axioms.go
+			if !axiomRelevant(ax, fn) || !axiomInScope(ax, props) || !fc.axiomWhen(ax, fn, pass) { // axiomInScope: ext_lemma_axioms.go; axiomWhen: ext_kviter.go
 				continue
 			}
 			aenv := &SpecEnv{fc: fc, vars: map[string]SV{}, cur: st, old: st, pkg: eng.pkgOfSpec(&FuncSpec{Pkg: ax.Pkg})}
@@ -129,6 +133,7 @@ func (eng *Engine) verifyFunc(fn *ssa.Function, props []string) (fc *FnCtx, err 
 			fc.assumes["axiom: "+ax.Text+" ("+ax.Src+")"] = true
 			fc.assume("true", t)
 		}
+		eng.extFuncUses(fc, fr.specEnv(st, st), spec) // ext_induct.go: closures of the lemmas the contract `uses`
 		if spec != nil {
 			// auxiliary variables start at their declared initial values
 			env := fr.specEnv(st, st)
@@ -160,9 +165,10 @@ func (eng *Engine) verifyFunc(fn *ssa.Function, props []string) (fc *FnCtx, err 
 		if spec != nil && pass == 1 {
 			fr.checkLineHintAnchors()
 		}
+		noteLeftOutClauses(fc, spec) // ext_propfilter.go: the evidence lists every clause that `check Cxx` left out
 		if spec != nil {
 			for i, h := range spec.Hints {
-				if e := fr.hintErr[i]; e != nil && !fr.hintOK[i] {
+				if e := fr.hintErr[i]; e != nil && !fr.hintOK[i] && clauseActive(h.Clause) {
 					eng.stale(spec, h.Clause, e)
 				}
 			}
@@ -199,6 +205,7 @@ func (fc *FnCtx) preamble() string {
 			fmt.Fprintf(&b, "(assert (forall ((b (Array Int Int)) (o Int) (n Int)) (! (>= (%s b o n) 1) :pattern ((%s b o n)))))\n", u, u)
 		}
 	}
+	b.WriteString(fc.kvIdAxiom()) // ext_kviter.go: one numbering of byte strings for keys and values
 	if d := fc.tc.strDistinct(); d != "" {
 		b.WriteString(d + "\n")
 	}
@@ -231,6 +238,9 @@ func (eng *Engine) lemmaCtx(l *Lemma) (fc *FnCtx, err error) {
 		}
 		env.vars[b.Name] = SV{t: name, typ: t}
 	}
+	if e := eng.extLemmaBefore(fc, env, l); e != nil { // ext_induct.go: `uses` closures and the induction hypothesis
+		return nil, fmt.Errorf("contract-stale: lemma %s: %v", l.Name, e)
+	}
 	for _, cl := range l.Requires {
 		t, e := env.evalBool(cl.E)
 		if e != nil {
@@ -241,6 +251,7 @@ func (eng *Engine) lemmaCtx(l *Lemma) (fc *FnCtx, err error) {
 	if e := eng.assumeLemmaAxioms(fc, st, l); e != nil { // ext_lemma_axioms.go
 		return nil, fmt.Errorf("contract-stale: lemma %s: axiom: %v", l.Name, e)
 	}
+	eng.extLemmaAfterRequires(fc, env, l) // ext_induct.go
 	cov := &Obligation{Name: "lemma:" + l.Name + "#cover", Kind: "cover", Func: "lemma:" + l.Name, Guard: "true", Cond: "false", Cover: true}
 	fc.script = append(fc.script, Item{ob: cov})
 	fc.obls = append(fc.obls, cov)
